@@ -12,6 +12,8 @@ package main
 
 import (
 	"context"
+	"io"
+	"net"
 	"encoding/binary"
 	"fmt"
 	"runtime"
@@ -275,4 +277,117 @@ func csmLateCompletion(o *common.Out, id, kind string, followers int) {
 	}
 	o.ImplOnly(id, abstract, true)
 	o.Count("late-completion")
+}
+
+// ---- a call issued while the reader is winding down ----
+// The connection is lost; the reader has started its termination sequence and is inside the connection-close plugin
+// when a new call is issued.  Whatever the order of the steps of that sequence, the new call completes - exactly once,
+// promptly, with an error - and nothing stays registered.  Oracle only.  case: winddown|<kind>
+type windDownPlugin struct{ g *lateGate }
+
+func (p windDownPlugin) ClientConnectionClose(net.Conn) error {
+	select {
+	case p.g.parked <- struct{}{}:
+		<-p.g.release
+	default: // a second invocation (Close after the reader): do not park again
+	}
+	return nil
+}
+
+func csmWindDown(o *common.Out, id, kind string) {
+	abstract := "winddown|" + kind
+	o.Begin(id, abstract)
+	fail := func(sig, d string) { o.Fail(id, sig, d, abstract) }
+	conn := newSimConn()
+	addr := "wind-" + id
+	simMu.Lock()
+	simConns[addr] = conn
+	simMu.Unlock()
+	opt := client.DefaultOption
+	opt.SerializeType = protocol.JSON
+	opt.Heartbeat = false
+	cl := client.NewClient(opt)
+	gate := &lateGate{parked: make(chan struct{}, 1), release: make(chan struct{}, 1)}
+	pc := client.NewPluginContainer()
+	pc.Add(windDownPlugin{gate})
+	cl.Plugins = pc
+	if err := cl.Connect("vsim", addr); err != nil {
+		fail("rig", err.Error())
+		return
+	}
+	simMu.Lock()
+	delete(simConns, addr)
+	simMu.Unlock()
+	defer cl.Close()
+	stop := make(chan struct{})
+	defer close(stop)
+	go func() { // the transport accepts every write (a half-closed stream still takes bytes)
+		for {
+			select {
+			case w := <-conn.writes:
+				w.reply <- nil
+			case <-stop:
+				return
+			}
+		}
+	}()
+	// an earlier call is in flight when the connection is lost
+	first := make(chan *client.Call, 2)
+	cl.Go(context.Background(), "Svc", "m", 1, new(int), first)
+	time.Sleep(2 * time.Millisecond)
+	conn.rdErr <- io.EOF
+	select {
+	case <-gate.parked:
+	case <-time.After(3 * time.Second):
+		fail("rig", "the reader never reached the connection-close plugin")
+		return
+	}
+	// the new call, issued while the reader stands inside the plugin
+	done := make(chan *client.Call, 4)
+	ret := make(chan error, 1)
+	go func() {
+		switch kind {
+		case "go":
+			cl.Go(context.Background(), "Svc", "m", 2, new(int), done)
+		case "call":
+			var rp int
+			ret <- cl.Call(context.Background(), "Svc", "m", 2, &rp)
+		}
+	}()
+	time.Sleep(3 * time.Millisecond)
+	gate.release <- struct{}{}
+	switch kind {
+	case "go":
+		select {
+		case c := <-done:
+			if c.Error == nil {
+				fail("wrong-reply", "a call issued while the connection was being torn down completed without an error")
+			}
+		case <-time.After(3 * time.Second):
+			fail("left-hanging", fmt.Sprintf("a call issued while the reader was winding down (inside the connection-close plugin) never completed: pending=%d shutdown=%v", client.VerifPendingLen(cl), cl.IsShutdown()))
+		}
+		time.Sleep(2 * time.Millisecond)
+		if len(done) > 0 {
+			fail("double-signal", "the call issued while the reader was winding down was signalled twice")
+		}
+	case "call":
+		select {
+		case err := <-ret:
+			if err == nil {
+				fail("wrong-reply", "a blocking call issued while the connection was being torn down returned success")
+			}
+		case <-time.After(3 * time.Second):
+			fail("left-hanging", fmt.Sprintf("a blocking call issued while the reader was winding down never returned: pending=%d shutdown=%v", client.VerifPendingLen(cl), cl.IsShutdown()))
+		}
+	}
+	select {
+	case c := <-first:
+		if c.Error == nil {
+			fail("wrong-reply", "the call in flight when the connection was lost completed without an error")
+		}
+	case <-time.After(3 * time.Second):
+		fail("left-hanging", "the call in flight when the connection was lost never completed")
+	}
+	o.ImplOnly(id, abstract, true)
+	o.Count("reader-wind-down")
 }
